@@ -76,6 +76,10 @@ func ci(id string) *checkInfo {
 }
 
 func init() {
+	// the four retry-queue checks are the heaviest quick tiers (40-55 s on 14 idle cores): leave head-room on a loaded machine
+	for _, id := range []string{"C01", "C02", "C03", "C12"} {
+		checks[id] = &checkInfo{QuickBudget: 150}
+	}
 	checks["C10"] = &checkInfo{Race: true}
 	checks["C15"] = &checkInfo{Race: true}
 	checks["SELF"] = &checkInfo{Race: true, QuickBudget: 60}
